@@ -119,6 +119,7 @@ func (c *Component) HandleSCCRQ(localIP, peerIP net.IP, avps []l2tppkt.AVP, cfg 
 	}
 
 	c.startTunnelRunner(t, cfg.HelloInterval)
+	applyPeerReceiveWindow(t, avps)
 
 	sccrpBody = l2tppkt.BuildSCCRP(l2tppkt.SCCRPParams{
 		LocalTunnelID:     localID,
